@@ -267,6 +267,234 @@ theorem readN_mid (rest : Bytes) :
             simpa using hfin hk''
 
 
+/-! ### Progress: every non-`Pending` inner read consumes a byte of the frames -/
+
+/-- Inside a frame there is always at least one byte of it still in flight. -/
+theorem mid_data_pos (f rest : Bytes) (r : Reader) (c : RCarrier) (h : Mid f rest r c) :
+    rest.length < c.data.length := by
+  obtain ⟨st, rb⟩ := r
+  obtain ⟨data, eof⟩ := c
+  cases st with
+  | readLength buf pos =>
+    simp only [Mid] at h
+    rcases h.2 with ⟨_, _, hdata⟩ | ⟨_, _, _, hdata⟩
+    · have := uviEncode_length_pos f.length
+      simp [hdata]; omega
+    · simp [hdata]; omega
+  | readData len pos =>
+    simp only [Mid] at h
+    obtain ⟨hlen, _, hpos, _, hdata⟩ := h
+    simp [hdata]; omega
+
+/-- An injected `Pending` changes nothing. -/
+theorem pollNext_mid_zero (f rest : Bytes) (r : Reader) (c : RCarrier) (h : Mid f rest r c) (s : List Nat) :
+    pollNext r c (0 :: s) = (r, c, s, .pending) := by
+  have hpos := mid_data_pos f rest r c h
+  have hne : c.data ≠ [] := by intro h0; rw [h0] at hpos; simp at hpos
+  obtain ⟨st, rb⟩ := r
+  cases st with
+  | readLength buf pos =>
+    simp only [Mid] at h
+    have : pos < 2 := by rcases h.2 with ⟨hp, _⟩ | ⟨hp, _⟩ <;> omega
+    exact pollNext_len_pending _ _ _ _ _ this hne
+  | readData len pos =>
+    simp only [Mid] at h
+    obtain ⟨hlen, hrbl, hpos, _, _⟩ := h
+    exact pollNext_data_pending _ _ _ _ _ (by omega) hne
+
+/-- One non-`Pending` inner read from inside frame `f`: at least one byte of the frame leaves the
+carrier, and either the reader is still inside `f` or it returns `f`. -/
+theorem pollNext_mid_step (f rest : Bytes) (hf : f.length < 16384) (r : Reader) (c : RCarrier)
+    (h : Mid f rest r c) (ch : Nat) (hch : ch ≠ 0) :
+    (∃ r' c', Mid f rest r' c' ∧ c'.eof = c.eof ∧ c'.data.length < c.data.length ∧
+        ∀ s, pollNext r c (ch :: s) = pollNext r' c' s) ∨
+    (rest.length < c.data.length ∧ ∀ s, pollNext r c (ch :: s) = (Reader.fresh, ⟨rest, c.eof⟩, s, .frame f)) := by
+  have hposd := mid_data_pos f rest r c h
+  obtain ⟨st, rb⟩ := r
+  obtain ⟨data, eof⟩ := c
+  cases st with
+  | readLength buf pos =>
+    simp only [Mid] at h
+    obtain ⟨hrb, h⟩ := h
+    subst hrb
+    rcases h with ⟨hpos, hbuf, hdata⟩ | ⟨hpos, hn, hbuf, hdata⟩
+    · subst hpos hbuf
+      by_cases hsmall : f.length < 128
+      · rw [uviEncode_lt _ hsmall] at hdata
+        subst hdata
+        by_cases hz : f.length = 0
+        · right
+          refine ⟨hposd, fun s => ?_⟩
+          rw [show [f.length] ++ (f ++ rest) = f.length :: (f ++ rest) from rfl,
+            pollNext_len_step _ _ _ _ _ _ _ _ (by omega) hch]
+          simp only [hsmall, if_true, List.set_cons_zero, u16_one _ hsmall]
+          have hnil : f = [] := List.eq_nil_of_length_eq_zero hz
+          subst hnil
+          simp [Reader.fresh, ReadState.default, maxLenBytes_eq]
+        · left
+          refine ⟨⟨.readData f.length 0, List.replicate f.length 0⟩, ⟨f ++ rest, eof⟩,
+            by simp [Mid]; omega, rfl, by simp, fun s => ?_⟩
+          rw [show [f.length] ++ (f ++ rest) = f.length :: (f ++ rest) from rfl,
+            pollNext_len_step _ _ _ _ _ _ _ _ (by omega) hch]
+          simp only [hsmall, if_true, List.set_cons_zero, u16_one _ hsmall]
+          rw [if_pos (by omega)]
+      · left
+        rw [uviEncode_two _ (by omega) hf] at hdata
+        subst hdata
+        refine ⟨⟨.readLength [f.length % 128 + 128, 0] 1, []⟩, ⟨(f.length / 128) :: (f ++ rest), eof⟩,
+          by simp [Mid]; omega, rfl, by simp, fun s => ?_⟩
+        rw [show [f.length % 128 + 128, f.length / 128] ++ (f ++ rest) =
+            (f.length % 128 + 128) :: (f.length / 128) :: (f ++ rest) from rfl,
+          pollNext_len_step _ _ _ _ _ _ _ _ (by omega) hch]
+        simp only [show ¬ (f.length % 128 + 128 < 128) by omega, if_false, List.set_cons_zero,
+          show ¬ (0 + 1 = 2) by omega]
+    · left
+      subst hpos hbuf
+      subst hdata
+      refine ⟨⟨.readData f.length 0, List.replicate f.length 0⟩, ⟨f ++ rest, eof⟩,
+        by simp [Mid]; omega, rfl, by simp, fun s => ?_⟩
+      rw [pollNext_len_step _ _ _ _ _ _ _ _ (by omega) hch]
+      have hset : [f.length % 128 + 128, 0].set 1 (f.length / 128) = [f.length % 128 + 128, f.length / 128] := rfl
+      simp only [show f.length / 128 < 128 by omega, if_true, hset, u16_two _ hn hf]
+      rw [if_pos (by omega)]
+  | readData len pos =>
+    simp only [Mid] at h
+    obtain ⟨hlen, hrbl, hpos, htake, hdata⟩ := h
+    subst hlen
+    have hdne : data ≠ [] := by
+      rw [hdata]; intro h0
+      have := (List.append_eq_nil_iff.mp h0).1
+      have := congrArg List.length this
+      simp at this; omega
+    have hdl : f.length - pos ≤ data.length := by rw [hdata]; simp
+    let n := min ch (min (rb.length - pos) data.length)
+    have hn1 : 1 ≤ n := by
+      have : 0 < data.length := List.length_pos_iff.mpr hdne
+      simp only [n]; omega
+    have hn2 : n ≤ f.length - pos := by simp only [n]; omega
+    have htk : data.take n = (f.drop pos).take n := by
+      rw [hdata, List.take_append_of_le_length (by simp; omega)]
+    have hdr : data.drop n = f.drop (pos + n) ++ rest := by
+      rw [hdata, List.drop_append_of_le_length (by simp; omega), List.drop_drop]
+    have hn3 : n ≤ data.length := by simp only [n]; omega
+    have hlt : (data.take n).length = n := by rw [List.length_take]; omega
+    obtain ⟨b, bs, hbbs⟩ : ∃ b bs, data.take n = b :: bs := by
+      cases hx : data.take n with
+      | nil => rw [hx] at hlt; simp at hlt; omega
+      | cons b bs => exact ⟨b, bs, rfl⟩
+    have hlenbbs : (b :: bs).length = n := by
+      rw [← hbbs]; exact hlt
+    have hwa : (writeAt rb pos (b :: bs)).take (pos + n) = f.take (pos + n) := by
+      rw [← hbbs, htk]
+      unfold writeAt
+      rw [htake, List.take_append_of_le_length (by simp; omega)]
+      rw [List.take_of_length_le (by simp; omega)]
+      rw [List.take_add]
+    have hwl : (writeAt rb pos (b :: bs)).length = f.length := by
+      unfold writeAt
+      simp only [List.length_append, List.length_take, List.length_drop, hlenbbs]
+      omega
+    have hcap : rb.length - pos ≠ 0 := by omega
+    have hstep0 : pollRead ⟨data, eof⟩ (rb.length - pos) ch = (⟨data.drop n, eof⟩, .ready (b :: bs)) := by
+      simp only [pollRead, hcap, hdne, hch, if_false]
+      rw [← hbbs]
+    by_cases hfin : pos + n = f.length
+    · right
+      refine ⟨hposd, fun s => ?_⟩
+      have hall : writeAt rb pos (b :: bs) = f := by
+        have := hwa
+        rw [hfin, List.take_of_length_le (by omega), List.take_of_length_le (by omega)] at this
+        exact this
+      have hrest : data.drop n = rest := by
+        rw [hdr, hfin]; simp
+      rw [pollNext]
+      simp only [hstep0, hlenbbs, hfin, if_true, hall, hrest]
+      simp [Reader.fresh]
+    · left
+      refine ⟨⟨.readData f.length (pos + n), writeAt rb pos (b :: bs)⟩, ⟨data.drop n, eof⟩,
+        by simp only [Mid]; exact ⟨trivial, hwl, by omega, hwa, hdr⟩, rfl, by simp; omega, fun s => ?_⟩
+      rw [pollNext]
+      simp only [hstep0, hlenbbs, hfin, if_false]
+
+/-- Number of non-`Pending` choices in a schedule. -/
+def nz (s : List Nat) : Nat := (s.filter (· ≠ 0)).length
+
+theorem nz_cons_zero (s : List Nat) : nz (0 :: s) = nz s := by simp [nz]
+
+theorem nz_cons_pos (ch : Nat) (s : List Nat) (h : ch ≠ 0) : nz (ch :: s) = nz s + 1 := by simp [nz, h]
+
+/-- **The measure.** During one `poll_next` from inside a frame, the non-`Pending` inner reads made
+are at most the bytes that left the carrier; the poll uses at least one choice of a non-empty
+schedule and never creates choices. -/
+theorem pollNext_mid_budget (f rest : Bytes) (hf : f.length < 16384) :
+    ∀ (sched : List Nat) (r : Reader) (c : RCarrier), Mid f rest r c →
+      nz sched + (pollNext r c sched).2.1.data.length ≤ nz (pollNext r c sched).2.2.1 + c.data.length ∧
+      (pollNext r c sched).2.2.1.length ≤ sched.length ∧
+      (sched ≠ [] → (pollNext r c sched).2.2.1.length < sched.length) := by
+  intro sched
+  induction sched with
+  | nil => intro r c _; simp [pollNext]
+  | cons ch s ih =>
+    intro r c h
+    by_cases hch : ch = 0
+    · subst hch
+      rw [pollNext_mid_zero f rest r c h s, nz_cons_zero]
+      simp
+    · rcases pollNext_mid_step f rest hf r c h ch hch with ⟨r', c', hm, _, hlt, heq⟩ | ⟨hlt, heq⟩
+      · rw [heq s, nz_cons_pos ch s hch]
+        obtain ⟨h1, h2, _⟩ := ih r' c' hm
+        refine ⟨by omega, by simp; omega, fun _ => by simp; omega⟩
+      · rw [heq s, nz_cons_pos ch s hch]
+        simp; omega
+
+/-- **Progress.** Reading `|f :: fs|` frames from inside `f`: if the schedule still holds at least as
+many non-`Pending` choices as there are bytes of these frames in flight, and the reader keeps
+polling (`fuel`), every frame is returned. -/
+theorem readN_progress (rest : Bytes) :
+    ∀ (fuel : Nat) (f : Bytes) (fs : List Bytes) (r : Reader) (c : RCarrier) (sched : List Nat),
+      (∀ g ∈ f :: fs, g.length < 16384) → Mid f (wire fs ++ rest) r c →
+      sched.length ≤ fuel → c.data.length ≤ nz sched + rest.length →
+      (readN (fs.length + 1) fuel r c sched).1 = (f :: fs).map PollNext.frame := by
+  intro fuel
+  induction fuel with
+  | zero =>
+    intro f fs r c sched _ hmid hfuel hnz
+    have := mid_data_pos _ _ _ _ hmid
+    have hs : sched = [] := List.eq_nil_of_length_eq_zero (by omega)
+    subst hs
+    simp [nz] at hnz this
+    omega
+  | succ fuel ih =>
+    intro f fs r c sched hlen hmid hfuel hnz
+    have hpos := mid_data_pos _ _ _ _ hmid
+    by_cases hs : sched = []
+    · subst hs
+      simp [nz] at hnz hpos
+      omega
+    · have hstep := pollNext_mid f (wire fs ++ rest) (hlen f (by simp)) sched r c hmid
+      obtain ⟨hb1, hb2, hb3⟩ := pollNext_mid_budget f (wire fs ++ rest) (hlen f (by simp)) sched r c hmid
+      have hb3 := hb3 hs
+      rw [readN]
+      simp only [hs, if_false]
+      generalize pollNext r c sched = p at hstep hb1 hb2 hb3
+      obtain ⟨r1, c1, s1, res⟩ := p
+      simp only at hstep hb1 hb2 hb3
+      rcases hstep with ⟨hp, hm, he⟩ | ⟨hfr, hr, hc⟩
+      · subst hp
+        exact ih f fs r1 c1 s1 hlen hm (by omega) (by omega)
+      · subst hfr hr hc
+        simp only
+        cases fs with
+        | nil => simp [readN]
+        | cons g fs' =>
+          have hm' : Mid g (wire fs' ++ rest) Reader.fresh ⟨wire (g :: fs') ++ rest, c.eof⟩ := by
+            rw [wire_cons, List.append_assoc]; exact mid_fresh _ _ _
+          have := ih g fs' Reader.fresh ⟨wire (g :: fs') ++ rest, c.eof⟩ s1
+            (fun x hx => hlen x (by simp at hx ⊢; right; exact hx)) hm' (by omega) (by simp at hb1 ⊢; omega)
+          simp only [List.length_cons] at this ⊢
+          simp [this]
+
+
 /-- `poll_write_buffer` never loses, duplicates or reorders a byte, whatever the chunking; when it
 reports `Ready` the write buffer is empty (so `into_inner`'s assertion holds after a flush). -/
 theorem pollWriteBuffer_exact :
